@@ -204,10 +204,10 @@ def check(prog, res, tier):
                     procs.add(data['const'])
     used_p = {v.get('field_processor') for v in cfg.values() if v.get('field_processor')}
     enc_pds = set()
-    for n in ast.walk(efi.node):
-        if isinstance(n, ast.Compare) and isinstance(n.comparators[0], ast.Constant) and isinstance(n.comparators[0].value, str) \
-                and 'field_processor' in ast.unparse(n.left):
-            enc_pds.add(n.comparators[0].value)
+    for p in runs_e.inv:
+        for kind, truth, data in p.facts:
+            if kind in ('sym-eq', 'sym-eq-nofork') and data['sym'].name.endswith('.field_processor'):
+                enc_pds.add(data['const'])
     ob = Ob('C01.e', 'every documented / configured field processor is handled by the decoder; the encoder selects carriers by the same PDS tag',
             func_where(prog.func('iso8583._iso8583_to_field')), "field_processor == 'PAN' | 'PAN-PREFIX' | 'ICC' | 'PDS' | 'DE43'")
     need = DOC_PROCS | used_p
